@@ -29,6 +29,9 @@ type conn struct {
 	shutdownCtx context.Context
 	requestsWg  sync.WaitGroup
 
+	// disablePanicRecovery is set by the server (see: WithDisablePanicRecovery)
+	disablePanicRecovery bool
+
 	reader   *bufio.Reader
 	writer   *bufio.Writer
 	writerMu sync.Mutex // shared lock across all ResponseWriter's to prevent write data races
@@ -137,6 +140,17 @@ func (c *conn) serveRequests() error {
 					c.logger.Debug("requestsWg done", "op", op, "conn", c.connID, "requestID", w.requestID)
 					c.requestsWg.Done()
 				}()
+				if !c.disablePanicRecovery {
+					// catch and report panics - a handler runs in its own
+					// goroutine, so the recover of the conn's goroutine
+					// doesn't cover it and we don't want a panic while
+					// handling a single request to crash the server
+					defer func() {
+						if rec := recover(); rec != nil {
+							c.logger.Error("Caught panic while serving request", "op", op, "conn", c.connID, "requestID", w.requestID, "panic", fmt.Sprintf("%+v", rec))
+						}
+					}()
+				}
 				c.router.serve(w, r)
 			}()
 		}
